@@ -225,10 +225,6 @@ struct Fold<eventpp::HeterTuple<P...> >
 		const bool m[] = { ProtoTakes<P, In...>::value... };
 		unsigned r = 0; for(int i = 0; i < (int)N; ++i) if(m[i]) r |= 1u << i; return r;
 	}
-	template <typename Q> static constexpr int indexOfExact() {
-		const bool m[] = { std::is_same<Q, P>::value... };
-		for(int i = 0; i < (int)N; ++i) if(m[i]) return i; return -1;
-	}
 };
 
 // ------------------------------------------------------------------ configurations
